@@ -146,7 +146,9 @@ def stepMain (s : LState) (c : Char) (next : Option Char) : LState :=
       (if next == some '&' then { (s.emit (.op "&&")) with skip := true } else s.emit (.op "&"))
     else if c == '|' then
       (if next == some '|' then { (s.emit (.op "||")) with skip := true } else s.emit (.op "|"))
-    else if c == '(' then s.emit (.op "(")
+    else if c == '(' then
+      -- `(a`: an open parenthesis immediately followed by another one (`next.index == open.index + 1`)
+      (if next == some '(' then s.emit (.op "(a") else s.emit (.op "("))
     else if c == ')' then s.emit (.op ")")
     else if c == '<' then
       (if next == some '<' then
@@ -307,11 +309,10 @@ mutual
         | some _ => .err
         | none =>
           match t with
-          | .op "(" =>
+          | .op "(" => pSub cfg n rest
+          | .op "(a" =>
             -- `Parser::subshell`: in portable mode `((` is rejected
-            (match rest with
-             | .op "(" :: _ => if cfg.portable then .err else pSub cfg n rest
-             | _ => pSub cfg n rest)
+            if cfg.portable then .err else pSub cfg n rest
           | .word _ _ | .here _ =>
             let (ws, h, r) := simpleWords (t :: rest) [] none
             .ok (.simple ws h) r
@@ -424,6 +425,7 @@ mutual
           | .word _ _ => !isClauseDelim t
           | .here _ => true
           | .op "(" => true
+          | .op "(a" => true
           | _ => false
         if !startsCommand then .ok [] (t :: rest) else
         match pAndOr cfg n (t :: rest) with
@@ -475,7 +477,7 @@ def parseLine (cfg : PCfg) (text : List Char) : ParseRes :=
   | .error => .error
   | .incomplete => .incomplete
   | .ok =>
-    match pList cfg (lx.toks.length + 2) lx.toks with
+    match pList cfg (6 * lx.toks.length + 10) lx.toks with
     | .inc => .incomplete
     | .err => .error
     | .ok cs r =>
